@@ -274,9 +274,13 @@ func (ctx *RenderContext) GetVariable(name string) (interface{}, error) {
 		}
 	}
 
-	// Check local context first
-	if value, ok := ctx.context[name]; ok {
-		return value, nil
+	// Check the local context, then the contexts this one reads through to (an
+	// includer's or caller's variables); a variable shadows a global of the same name
+	// wherever it is visible, so the globals come last
+	for c := ctx; c != nil; c = c.parent {
+		if value, ok := c.context[name]; ok {
+			return value, nil
+		}
 	}
 
 	// Check globals
@@ -284,11 +288,6 @@ func (ctx *RenderContext) GetVariable(name string) (interface{}, error) {
 		if value, ok := ctx.env.globals[name]; ok {
 			return value, nil
 		}
-	}
-
-	// Check parent context
-	if ctx.parent != nil {
-		return ctx.parent.GetVariable(name)
 	}
 
 	// Return nil with no error for undefined variables
